@@ -145,6 +145,29 @@ where C: ArrayCast<Array = [T; 3]> + Clamp + ClampAssign + IsWithinBounds<Mask =
 }
 
 /// FromColor = clamp ∘ unclamped, TryFromColor succeeds exactly when the unclamped result is within bounds
+/// the collection forms of the clamping conversion (`Vec<D>: FromColor<Vec<S>>`, `Box<[D]>: FromColor<Box<[S]>>`, in place over the same
+/// allocation) must give, element for element, the single-colour `from_color`; likewise the unclamped forms
+fn run_convert_collections<S, D, T: Comp>(out: &mut Out, key: &str, srcs: &[[T; 3]])
+where S: ArrayCast<Array = [T; 3]> + Clone, D: ArrayCast<Array = [T; 3]> + FromColorUnclamped<S> + FromColor<S> + Clamp + Clone,
+      Vec<D>: FromColor<Vec<S>> + FromColorUnclamped<Vec<S>>, Box<[D]>: FromColor<Box<[S]>> + FromColorUnclamped<Box<[S]>> {
+    let finite = |a: &[T; 3]| a.iter().all(|x| x.partial_cmp(x).is_some());
+    let v: Vec<S> = srcs.iter().map(|s| cast::from_array(*s)).collect();
+    let single: Vec<[T; 3]> = v.iter().map(|c| cast::into_array(D::from_color(c.clone()))).collect();
+    let single_u: Vec<[T; 3]> = v.iter().map(|c| cast::into_array(D::from_color_unclamped(c.clone()))).collect();
+    let vv: Vec<[T; 3]> = <Vec<D>>::from_color(v.clone()).into_iter().map(|c| cast::into_array(c)).collect();
+    let vb: Vec<[T; 3]> = <Box<[D]>>::from_color(v.clone().into_boxed_slice()).into_vec().into_iter().map(|c| cast::into_array(c)).collect();
+    let uv: Vec<[T; 3]> = <Vec<D>>::from_color_unclamped(v.clone()).into_iter().map(|c| cast::into_array(c)).collect();
+    let ub: Vec<[T; 3]> = <Box<[D]>>::from_color_unclamped(v.clone().into_boxed_slice()).into_vec().into_iter().map(|c| cast::into_array(c)).collect();
+    for i in 0..srcs.len() {
+        if !finite(&single_u[i]) { continue; }
+        out.check(same_arr(&vv[i], &single[i]), &format!("vec-from-color=elementwise:{}", key), || format!("{:?}: Vec form {:?}, single {:?}", srcs[i], vv[i], single[i]));
+        out.check(same_arr(&vb[i], &single[i]), &format!("box-from-color=elementwise:{}", key), || format!("{:?}: Box<[T]> form {:?}, single {:?}", srcs[i], vb[i], single[i]));
+        out.check(same_arr(&uv[i], &single_u[i]), &format!("vec-from-color-unclamped=elementwise:{}", key), || format!("{:?}: Vec form {:?}, single {:?}", srcs[i], uv[i], single_u[i]));
+        out.check(same_arr(&ub[i], &single_u[i]), &format!("box-from-color-unclamped=elementwise:{}", key), || format!("{:?}: Box<[T]> form {:?}, single {:?}", srcs[i], ub[i], single_u[i]));
+    }
+    out.count("cls:collection-forms");
+}
+
 fn run_convert<S, D, T: Comp, const N: usize, const M: usize>(out: &mut Out, key: &str, srcs: &[[T; N]])
 where S: ArrayCast<Array = [T; N]> + Clone, D: ArrayCast<Array = [T; M]> + FromColorUnclamped<S> + FromColor<S> + TryFromColor<S> + Clamp + IsWithinBounds<Mask = bool> + Clone {
     for s in srcs {
@@ -195,7 +218,7 @@ macro_rules! run_floats { ($out:expr, $rng:expr, $n:expr, $t:ty) => {{
     let mut srcs: Vec<[T; 3]> = vec![];
     for _ in 0..n { srcs.push([rng.range(-1.0, 2.0) as T, rng.range(-1.0, 2.0) as T, rng.range(-1.0, 2.0) as T]); srcs.push([rng.unit() as T, rng.unit() as T, rng.unit() as T]); }
     for a in [0.0, 1.0, -0.5, 1.5] { for b in [0.0, 1.0, 2.0] { for c in [0.0, 1.0, -1.0] { srcs.push([a as T, b as T, c as T]); } } }
-    macro_rules! conv { ($s:ty, $d:ty, $k:expr) => { run_convert::<$s, $d, T, 3, 3>(out, concat!($k, ":", stringify!($t)), &srcs) } }
+    macro_rules! conv { ($s:ty, $d:ty, $k:expr) => { run_convert::<$s, $d, T, 3, 3>(out, concat!($k, ":", stringify!($t)), &srcs); run_convert_collections::<$s, $d, T>(out, concat!($k, ":", stringify!($t)), &srcs); } }
     conv!(Rgb<S, T>, Hsl<S, T>, "Rgb->Hsl"); conv!(Rgb<S, T>, Hsv<S, T>, "Rgb->Hsv"); conv!(Rgb<S, T>, Hwb<S, T>, "Rgb->Hwb"); conv!(Rgb<S, T>, Lab<D65, T>, "Rgb->Lab");
     conv!(Rgb<S, T>, Xyz<D65, T>, "Rgb->Xyz"); conv!(Xyz<D65, T>, Rgb<S, T>, "Xyz->Rgb"); conv!(Xyz<D65, T>, Yxy<D65, T>, "Xyz->Yxy"); conv!(Xyz<D65, T>, Luv<D65, T>, "Xyz->Luv");
     conv!(Xyz<D65, T>, Lch<D65, T>, "Xyz->Lch"); conv!(Xyz<D65, T>, Oklab<T>, "Xyz->Oklab"); conv!(Rgb<S, T>, Okhsv<T>, "Rgb->Okhsv"); conv!(Rgb<S, T>, Okhsl<T>, "Rgb->Okhsl");
